@@ -41,8 +41,12 @@ def build(case):
     temps = [case["temps"][i] for i in case["order"]]
     p_ref = P_REF[case["pidx"]]
     exps = []
-    for t in temps:
-        perm = U.Permeance(value=line(p_ref, ea, t, case["temps"][0]), units=U.Units.kg_m2_h_kPa)
+    for k_, t in enumerate(temps):
+        val_ = line(p_ref, ea, t, case["temps"][0])
+        if case.get("offline"):
+            # experiments that do NOT lie on the Arrhenius line of the stated energy: the stated energy must still be used
+            val_ *= (1.0 + 0.37 * math.sin(1.7 + 2.3 * case["temps"].index(t)))
+        perm = U.Permeance(value=val_, units=U.Units.kg_m2_h_kPa)
         if case["units"] != U.Units.kg_m2_h_kPa:
             perm = perm.convert(to_units=case["units"], component=comp)
         exps.append(U.IdealExperiment(name="e", temperature=t, component=comp, permeance=perm,
@@ -84,16 +88,16 @@ def judge(case):
         if not core.close(val, ref, core.ULP):
             v.append(core.viol("C12/arrhenius_stated", "T=%r: %r, nearest experiment (%r K) x Arrhenius factor = %r" % (t, val, temps[j], ref)))
     else:
-        if not core.close(val, p_true, 1e-8):
+        if not core.close(val, p_true, 1e-6 if case.get("narrow") else 1e-8):
             v.append(core.viol("C12/arrhenius_regressed", "T=%r: %r, experiments lie on the line giving %r" % (t, val, p_true)))
     # independent of nearest experiment / order of the list: compare with the Arrhenius line itself
-    if not core.close(val, p_true, 1e-8):
+    if not case.get("offline") and not core.close(val, p_true, 1e-6 if case.get("narrow") else 1e-8):
         v.append(core.viol("C12/line", "T=%r: %r but the experiments' Arrhenius line gives %r (order %r)" % (t, val, p_true, case["order"])))
     if n >= 2 or case["stated"]:
         st, ea_fit = core.call(mem.calculate_activation_energy, comp)
         if st != "ok":
             v.append(core.viol("C12/valid_raises", "calculate_activation_energy raises %r" % (ea_fit,)))
-        elif n >= 2 and not core.close(float(ea_fit), ea, 1e-9, 1e-6):
+        elif n >= 2 and not case.get("offline") and not core.close(float(ea_fit), ea, 1e-7 if case.get("narrow") else 1e-9, 1e-6):
             v.append(core.viol("C12/regression", "regressed activation energy %r, true %r" % (float(ea_fit), ea)))
         elif n < 2 and not core.bit_eq(float(ea_fit), ea):
             v.append(core.viol("C12/stated_energy", "stated activation energy %r returned as %r" % (ea, float(ea_fit))))
@@ -142,6 +146,22 @@ def cases(tier, seed):
                             for t in qs:
                                 out.append({"component": comp, "pidx": ci, "temps": temps[:n], "order": order, "ea": ea,
                                             "stated": stated, "units": units, "T": t})
+    # stated activation energy (incl. exactly 0) with experiments that are NOT on its Arrhenius line
+    for ci, comp in enumerate(["H2O", "EtOH"]):
+        for n in (2, 3, 4):
+            for order in orderings(n)[:: (1 if q else 1)][:6]:
+                for ea in (0.0, 20000.0, -60000.0):
+                    for t in (queries[1::3] + [temps[0], temps[n - 1] + 1e-3]):
+                        out.append({"component": comp, "pidx": ci, "temps": temps[:n], "order": order, "ea": ea, "stated": True, "units": U.Units.kg_m2_h_kPa,
+                                    "T": t, "offline": True})
+    # experiments clustered within a few kelvin (the regression is ill-conditioned but perfectly determined)
+    for ci, comp in enumerate(["H2O", "SC"]):
+        for cluster in ([350.0, 352.0], [300.0, 301.0, 302.0], [273.15, 274.4], [398.0, 399.1, 400.0]):
+            for ea in (20000.0, 120000.0):
+                for stated in (True, False):
+                    for t in (cluster[0] - 0.7, cluster[-1] + 0.4, cluster[0] + 0.45):
+                        out.append({"component": comp, "pidx": ci, "temps": cluster, "order": list(range(len(cluster))), "ea": ea, "stated": stated,
+                                    "units": U.Units.kg_m2_h_kPa, "T": t, "narrow": True})
     return out
 
 
